@@ -85,3 +85,53 @@ func VerifC32IRSignature() {
 	}
 	neofsecdsa.VerifHookDecode, neofscrypto.VerifHookVerify = nil, nil
 }
+
+// VerifC32IRSecondRequest: the same server verifies two requests in a row; the
+// second one has another body and carries either its own signature or the
+// bytes of the first one's. Whatever happened to the first request, the second
+// one is accepted only if its signature verifies over its own body.
+func VerifC32IRSecondRequest() {
+	allowed := [][]byte{{1, 1}, {2, 2}}
+	key := allowed[vrt.Choice("requestKey", 2)]
+	sig1 := []byte{0xA1}
+	sig2 := []byte{0xA2}
+	verdict1 := vrt.Bool("firstSignatureVerdict")
+	verdict2 := vrt.Bool("secondSignatureVerdict")
+	req1 := new(control.HealthCheckRequest)
+	req1.Body = new(control.HealthCheckRequest_Body)
+	req2 := new(control.NotarySignRequest)
+	req2.Body = &control.NotarySignRequest_Body{Hash: []byte{7, 7}}
+	body1, _ := req1.ReadSignedData(nil)
+	body2, _ := req2.ReadSignedData(nil)
+	vrt.Assert(!bytes.Equal(body1, body2), "the two bodies differ")
+	neofsecdsa.VerifHookDecode = func(_ *neofsecdsa.PublicKey, data []byte) error { return nil }
+	// a signature verifies only over the body it was made for
+	neofscrypto.VerifHookVerify = func(x neofscrypto.Signature, data []byte) bool {
+		switch {
+		case bytes.Equal(x.Value(), sig1):
+			return verdict1 && bytes.Equal(data, body1)
+		case bytes.Equal(x.Value(), sig2):
+			return verdict2 && bytes.Equal(data, body2)
+		}
+		return false
+	}
+	s := &Server{allowedKeys: allowed}
+	req1.Signature = &control.Signature{Key: key, Sign: sig1}
+	err1 := s.isValidRequest__real(req1)
+	vrt.Assert((err1 == nil) == verdict1, "the first request is accepted exactly when its signature verifies")
+	reused := vrt.Bool("secondRequestReusesFirstSignature")
+	if reused {
+		req2.Signature = &control.Signature{Key: key, Sign: sig1}
+	} else {
+		req2.Signature = &control.Signature{Key: key, Sign: sig2}
+	}
+	err2 := s.isValidRequest__real(req2)
+	if err2 == nil {
+		vrt.Assert(!reused && verdict2, "a request is accepted only with a valid signature over its own body, whatever was verified before")
+		vrt.Reach("second-accepted")
+	} else {
+		vrt.Assert(reused || !verdict2, "a correctly signed request is accepted")
+		vrt.Reach("second-rejected")
+	}
+	neofsecdsa.VerifHookDecode, neofscrypto.VerifHookVerify = nil, nil
+}
